@@ -34,6 +34,7 @@ Inductive qobs :=
      (cached : option hash)          (* entry of the header index cache *)
      (stored : option hash)          (* BlockStore.GetBlockHash (persisted record) *)
      (blk : option (option block))   (* GetBlockByHeight: None error, Some None (nil,nil) *)
+| QHH (h : N) (hdr : option header)  (* GetHeaderByHeight *)
 | QK (k : hash)                      (* a block hash *)
      (blk : option block)            (* GetBlockByHash *)
      (hdr : option header)           (* GetHeaderByHash *)
@@ -80,6 +81,7 @@ Definition q_ok (cb : list hash) (ct : list (hash * hash)) (s : store) (q : qobs
       && opt_eqb N.eqb (lookup h (hi_map (s_hic s))) cached
       && opt_eqb N.eqb (lookup h (d_bhash (s_db s))) stored
       && opt_eqb (opt_eqb block_eqb) (byheight_obs (get_block_by_height (mem cb) (memr ct) s h)) blk
+  | QHH h hdr => opt_eqb header_eqb (get_header_by_height (mem cb) s h) hdr
   | QK k blk hdr hc =>
       opt_eqb block_eqb (get_block (mem cb) (memr ct) s k) blk
       && opt_eqb header_eqb (get_header_by_hash (mem cb) s k) hdr
